@@ -4,13 +4,18 @@ T2 correspondence of the Lean model (Pyc/Model/Addr.lean, Pyc/Model/Bech32.lean,
 `Address`, `PointerAddress` and `crypto.bech32`, plus direct evaluation of the property on the implementation against
 an independent CIP-19 / BIP-173 reference (harness/ref/cip19_ref.py, harness/ref/bech32_ref.py):
 
-* valid stream: 10 kinds x 2 networks x random 28-byte credentials, pointers over 0 and every 7-bit boundary to 2^63;
-  bytes, text, and both decodings compared three ways (implementation, model, reference);
+* valid stream: 10 kinds x 2 networks x random 28-byte credentials, pointers over 0 and every 7-bit boundary to 2^63,
+  the 64-bit boundaries and components far beyond 64 bits (the library takes any Python int); bytes, text, and both
+  decodings compared three ways (implementation, model, reference).  There is NO length limit on the text form
+  (CIP-19): pointer addresses of 109, 110, 111 and several hundred characters must encode and decode like any other;
 * pointer stream: the full cube of boundary values, encode / decode / minimality;
 * malformed bytes and strings: accept / reject (and the decoded structure when accepted) implementation vs model;
 * rejection: EVERY single-character substitution at EVERY position of sampled addresses (32 charset characters, the
-  separator, excluded / upper-case / non-ASCII characters) must be rejected; checksums computed under other
-  constants must be rejected.
+  separator, excluded / upper-case / non-ASCII characters), long pointer addresses included, must be rejected;
+  checksums computed under other constants -- the Bech32m constant of BIP-350 first of all -- must be rejected.
+
+History: the pinned code used to limit strings to 108 characters (KF-C15-len108) and to accept Bech32m checksums
+(KF-C15-bech32m-accepted); both were repaired in /repo and are plain violations if they reappear.
 """
 from __future__ import annotations
 
@@ -20,12 +25,13 @@ from pycardano.crypto import bech32 as impl_bech32
 from ref import bech32_ref as B
 from ref import cip19_ref as C
 
-KF_LEN108 = "KF-C15-len108"                   # text form longer than 108 characters: encode() -> None, decode raises
-KF_BECH32M = "KF-C15-bech32m-accepted"        # checksum valid under the Bech32m constant is accepted
-
 KIND_NAMES = {0: "KEY_KEY", 1: "SCRIPT_KEY", 2: "KEY_SCRIPT", 3: "SCRIPT_SCRIPT", 4: "KEY_POINTER", 5: "SCRIPT_POINTER",
               6: "KEY_NONE", 7: "SCRIPT_NONE", 14: "NONE_KEY", 15: "NONE_SCRIPT"}
 BOUNDS = [0] + [v for k in range(1, 10) for v in (2 ** (7 * k) - 1, 2 ** (7 * k))]      # 0, 127, 128, ..., 2^63-1, 2^63
+# beyond the cube: the largest 64-bit value (10 bytes), the first 11-byte value, and components far beyond 64 bits
+# (PointerAddress takes any non-negative int; the text form then has hundreds of characters)
+WIDE = [2 ** 64 - 1, 2 ** 64, 2 ** 70 - 1, 2 ** 70, 2 ** 128, 2 ** 256 - 1, 2 ** 511 + 12345]
+OLD_LIMIT = 108                                # the length limit the code used to apply (counted in the evidence only)
 SUBST_EXTRA = ["1", "b", "i", "o", "B", "Q", "L", "A", " ", "_", "-", "~", "!", "\"", "\\", "\x7f", "é", "İ",
                "ſ"]
 SUBST_CHARS = list(B.CHARSET) + SUBST_EXTRA
@@ -114,10 +120,10 @@ def check_addr(ctx, case):
             what = "header byte is not kind<<4 | network"
         ctx.violation(what, case, rb.hex(), ib.hex())
     if s != rs:
-        fid = KF_LEN108 if (s is None and len(rs) > 108) else None
-        ctx.violation("text form is not the Bech32 encoding of the bytes under the CIP-5 prefix", case, rs, s, finding=fid)
-    if len(rs) > 108:
+        ctx.violation("text form is not the Bech32 encoding of the bytes under the CIP-5 prefix", case, rs, s)
+    if len(rs) > OLD_LIMIT:
         ctx.count("text>108")
+        ctx.count("textlen:%s" % (len(rs) if len(rs) <= 111 else ">111"))
     # decoding the binary form
     d = impl_decode(ib)
     if d != a:
@@ -133,9 +139,7 @@ def check_addr(ctx, case):
                           case, a, d2)
     d3 = impl_decode(rs)
     if d3 != a:
-        fid = KF_LEN108 if ("err" in d3 and len(rs) > 108) else None
-        ctx.violation("the CIP-19 / CIP-5 text form of the address is not decoded to it", {**case, "text": rs}, a, d3,
-                      finding=fid)
+        ctx.violation("the CIP-19 / CIP-5 text form of the address is not decoded to it", {**case, "text": rs}, a, d3)
     # upper-case spelling is the same Bech32 string (BIP-173)
     d4 = impl_decode(rs.upper())
     if d4 != d3:
@@ -246,9 +250,8 @@ def check_str(ctx, case):
     r = C.parse_text(s)
     if r is not None:
         if d != r:
-            fid = KF_LEN108 if ("err" in d and len(s) > 108) else None
-            ctx.violation("a valid CIP-19 / CIP-5 text address is not decoded to its address", case, r, d, finding=fid)
-        ctx.count("str:valid")
+            ctx.violation("a valid CIP-19 / CIP-5 text address is not decoded to its address", case, r, d)
+        ctx.count("str:valid" + (">108" if len(s) > OLD_LIMIT else ""))
     elif "err" in d:
         ctx.count("str:rejected")
     else:
@@ -298,17 +301,21 @@ def check_const(ctx, case):
     """case = {kind: const, a, const}: the address text with the checksum computed under another constant"""
     a, c = case["a"], int(case["const"])
     t = B.encode(C.prefix(a), C.to_bytes(a), const=c)
-    if len(t) > 108:
-        return
     d = impl_decode(t)
     if c == B.BECH32:
         if d != a:
             ctx.violation("valid text form not decoded", {**case, "text": t}, a, d)
     elif "err" not in d:
-        fid = KF_BECH32M if c == B.BECH32M else None
-        ctx.violation("a string whose checksum is not a Bech32 checksum (constant %#x) is accepted" % c,
-                      {**case, "text": t}, "rejection", d, finding=fid)
-    ctx.count("const:" + ("bech32" if c == 1 else "bech32m" if c == B.BECH32M else "other"))
+        ctx.violation("a string whose checksum is not a Bech32 checksum (constant %#x%s) is accepted"
+                      % (c, ", the Bech32m constant" if c == B.BECH32M else ""), {**case, "text": t}, "rejection", d)
+    if c != B.BECH32:
+        # the same at the bech32 layer (the pool-id test and `encode`'s self-check call bech32_decode directly)
+        raw = impl_bech32.bech32_decode(t)
+        if raw != (None, None, None):
+            ctx.violation("bech32_decode accepts a checksum that is not a Bech32 checksum (constant %#x)" % c,
+                          {**case, "text": t}, "(None, None, None)", str(raw[2]))
+    ctx.count("const:" + ("bech32" if c == 1 else "bech32m" if c == B.BECH32M else "other")
+              + (">108" if len(t) > OLD_LIMIT else ""))
     if ctx.have_driver():
         md = model_dec(ctx, s=t)
         if md != d:
@@ -321,8 +328,6 @@ def check_foreign_hrp(ctx, case):
     NOTED, NOT ASSERTED (DESIGN.md section 4): `Address.decode` ignores the human-readable prefix."""
     a = case["a"]
     t = B.encode(case["hrp"], C.to_bytes(a))
-    if len(t) > 108:
-        return
     d = impl_decode(t)
     ctx.count("noted:foreign-prefix-" + ("accepted" if "err" not in d else "rejected"))
     if "err" not in d and d != a:
@@ -339,18 +344,31 @@ def check_b32(ctx, case):
     hrp, data = case["hrp"], bytes.fromhex(case["hex"])
     s = impl_bech32.encode(hrp, data)
     rs = B.encode(hrp, data)
-    if len(rs) <= 108:
-        if s != rs:
-            ctx.violation("bech32.encode is not the BIP-173 encoding", case, rs, s)
-        else:
-            try:
-                back = impl_bech32.decode(s)
-            except Exception:
-                back = "raised"
-            exp = list(data) if 2 <= len(data) <= 108 else None
-            if back != exp:
-                ctx.violation("bech32.decode(encode(x)) != x", case, exp, back)
-    ctx.count("b32:" + ("none" if s is None else "ok"))
+    if s != rs:                                    # for payloads of every length: Cardano applies no length limit
+        ctx.violation("bech32.encode is not the BIP-173 encoding", case, rs, s)
+    else:
+        try:
+            back = impl_bech32.decode(s)
+        except Exception:
+            back = "raised"
+        exp = list(data) if 2 <= len(data) else None          # `decode` refuses payloads of fewer than 2 bytes
+        if back != exp:
+            ctx.violation("bech32.decode(encode(x)) != x", case, exp, back)
+    ctx.count("b32:" + ("none" if s is None else "ok" if len(rs) <= OLD_LIMIT else "ok>108"))
+    if isinstance(s, str) and s == rs:
+        # the same data under the Bech32m constant is not a Cardano string: bech32_decode must reject it
+        tm = B.encode(hrp, data, const=B.BECH32M)
+        if impl_bech32.bech32_decode(tm) != (None, None, None):
+            ctx.violation("bech32_decode accepts a Bech32m checksum", {**case, "text": tm}, "(None, None, None)",
+                          "accepted")
+        if ctx.have_driver():
+            mr = ctx.driver().ok({"op": "bech32.raw", "s": tm})
+            ctx.traces += 1
+            rawm = impl_bech32.bech32_decode(tm)
+            gm = {"err": "reject"} if rawm[0] is None else \
+                {"hrp": rawm[0], "data": bytes(rawm[1]).hex(), "spec": str(rawm[2].value)}
+            if mr != gm:
+                ctx.diff("bech32.raw", {**case, "text": tm}, mr, gm)
     # the checksum register itself: implementation vs the GF(32) polynomial remainder of BIP-173
     vals = impl_bech32.bech32_hrp_expand(hrp) + B.to5(data)
     pm = impl_bech32.bech32_polymod(vals)
@@ -429,13 +447,26 @@ def gen_hash(rng):
 
 def gen_ptr(rng, i=None):
     """pointer triple; with an index, component j walks the boundary list so that every boundary is hit in every
-    component"""
+    component; one triple in eight has a component of 64 bits or (far) more, so that text forms beyond the former
+    108-character limit are a regular part of the stream"""
     if i is None:
         vals = [rng.choice(BOUNDS) if rng.random() < 0.7 else rng.randrange(2 ** rng.randrange(1, 64)) for _ in range(3)]
     else:
         j = i % 3
         vals = [rng.choice(BOUNDS) if rng.random() < 0.5 else rng.randrange(2 ** rng.randrange(1, 64)) for _ in range(3)]
         vals[j] = BOUNDS[(i // 3) % len(BOUNDS)]
+    if rng.random() < 0.125:
+        vals[rng.randrange(3)] = rng.choice(WIDE) if rng.random() < 0.6 else rng.randrange(2 ** rng.randrange(64, 600))
+    return {"t": "ptr", "slot": str(vals[0]), "tx": str(vals[1]), "cert": str(vals[2])}
+
+
+def gen_long_ptr(rng, nbytes):
+    """pointer triple whose encoding has exactly `nbytes` bytes (3 <= nbytes): lengths split at random"""
+    a = rng.randrange(1, nbytes - 1)
+    b = rng.randrange(1, nbytes - a)
+    lens = [a, b, nbytes - a - b]
+    rng.shuffle(lens)
+    vals = [rng.randrange(2 ** (7 * (k - 1)) if k > 1 else 0, 2 ** (7 * k)) for k in lens]
     return {"t": "ptr", "slot": str(vals[0]), "tx": str(vals[1]), "cert": str(vals[2])}
 
 
@@ -517,8 +548,8 @@ def malformed_str(rng, a):
         return B.encode(hrp, data[:1])                                 # one-byte payload
     if r == 11:
         return B.encode(hrp, b"")                                      # empty payload
-    if r == 12:
-        return B.encode(hrp, data + rng.randbytes(rng.randrange(1, 12)))   # longer payload (may pass 108 characters)
+    if r == 12:                                                        # longer payload (up to several hundred characters)
+        return B.encode(hrp, data + rng.randbytes(rng.choice([rng.randrange(1, 12), rng.randrange(12, 300)])))
     if r == 13:
         return B.encode(hrp, malformed_bytes(rng, data))               # valid Bech32 around a malformed payload
     if r == 14:
@@ -537,21 +568,30 @@ def other_constants(rng):
 
 def corpus():
     h1, h2 = bytes(range(28)).hex(), bytes(range(100, 128)).hex()
-    big = str(2 ** 63)
+    big, u64 = str(2 ** 63), str(2 ** 64 - 1)
     return [
         {"kind": "consts"},
-        # KF-C15-len108 witness: testnet pointer address with 30 pointer bytes: text form has 111 characters
+        # witness of the former KF-C15-len108: testnet pointer address with 30 pointer bytes, 111 characters
         {"kind": "addr", "a": {"pay": {"t": "key", "h": h1}, "stk": {"t": "ptr", "slot": big, "tx": big, "cert": big}, "net": 0}},
         {"kind": "addr", "a": {"pay": {"t": "key", "h": h1}, "stk": {"t": "ptr", "slot": big, "tx": big, "cert": big}, "net": 1}},
-        # 28 pointer bytes: exactly 108 characters on testnet (still accepted); 29 pointer bytes: 109 characters
+        # 28 pointer bytes: exactly 108 characters on testnet; 29 pointer bytes: 109 characters
         {"kind": "addr", "a": {"pay": {"t": "script", "h": h2}, "stk": {"t": "ptr", "slot": big, "tx": big, "cert": str(2 ** 56 - 1)}, "net": 0}},
         {"kind": "addr", "a": {"pay": {"t": "script", "h": h2}, "stk": {"t": "ptr", "slot": big, "tx": str(2 ** 56), "cert": big}, "net": 0}},
         # CIP-19 test vector material
         {"kind": "addr", "a": {"pay": {"t": "key", "h": "9493315cd92eb5d8c4304e67b7e16ae36d61d34502694657811a2c8e"},
                                "stk": {"t": "ptr", "slot": "2498243", "tx": "27", "cert": "3"}, "net": 1}},
         {"kind": "addr", "a": {"pay": {"t": "script", "h": h2}, "stk": {"t": "key", "h": h2}, "net": 0}},
-        # KF-C15-bech32m-accepted witness
+        # witness of the former KF-C15-bech32m-accepted (addr1vyqqzqsrqszsvpcgpy9qkrqdpc83qygjzv2p29shrqv35xc8lu3x2),
+        # and the same on a string beyond the former length limit
         {"kind": "const", "a": {"pay": {"t": "key", "h": h1}, "stk": {"t": "none"}, "net": 1}, "const": str(B.BECH32M)},
+        {"kind": "const", "a": {"pay": {"t": "key", "h": h1}, "stk": {"t": "ptr", "slot": big, "tx": big, "cert": big}, "net": 0},
+         "const": str(B.BECH32M)},
+        # 64-bit maxima (10 bytes each), the first 11-byte component, and components far beyond 64 bits
+        {"kind": "addr", "a": {"pay": {"t": "script", "h": h2}, "stk": {"t": "ptr", "slot": u64, "tx": u64, "cert": u64}, "net": 0}},
+        {"kind": "addr", "a": {"pay": {"t": "key", "h": h1}, "stk": {"t": "ptr", "slot": str(2 ** 64), "tx": "0", "cert": u64}, "net": 1}},
+        {"kind": "addr", "a": {"pay": {"t": "key", "h": h1}, "stk": {"t": "ptr", "slot": str(2 ** 511 + 12345), "tx": str(2 ** 256 - 1),
+                                                                      "cert": str(2 ** 128)}, "net": 0}},
+        {"kind": "b32", "hrp": "addr_test", "hex": bytes(range(200)).hex()},
         {"kind": "hrp", "a": {"pay": {"t": "key", "h": h1}, "stk": {"t": "none"}, "net": 1}, "hrp": "stake_test"},
         {"kind": "ptrbytes", "hex": "01020380"}, {"kind": "ptrbytes", "hex": "80010203"},
         {"kind": "bytes", "hex": ""}, {"kind": "bytes", "hex": "81" + h1}, {"kind": "bytes", "hex": "62" + h1},
@@ -562,15 +602,20 @@ def corpus():
 def run(ctx):
     ctx.rule = ("valid stream: every (payment kind, delegation kind) of CIP-19 x both networks x random / constant / "
                 "shared 28-byte credentials, pointer components walking 0 and 2^7k-1, 2^7k (k=1..9, up to 2^63) in every "
-                "position; pointer stream: the full cube of the 19 boundary values; malformed bytes / strings: 12 + 16 "
+                "position, one triple in eight with a component of 64..600 bits; long stream: pointer encodings of every "
+                "length 3..31 bytes and of 40..300 bytes in both pointer kinds and networks (text forms up to ~600 "
+                "characters, no length limit); pointer stream: the full cube of the 19 boundary values plus 7 wide "
+                "values; malformed bytes / strings: 12 + 16 "
                 "mutation operators on valid addresses plus all 256 header bytes over 8 payload shapes; rejection: every "
                 "single-character substitution (32 charset characters + 19 others incl. the separator, excluded, "
-                "upper-case and non-ASCII characters) at every position of sampled addresses of every kind and network, "
-                "and checksums under ~110 other constants; a case is non-trivial if it is a distinct input")
+                "upper-case and non-ASCII characters) at every position of sampled addresses of every kind and network "
+                "and of three long pointer addresses (111, 111 and ~250 characters), and checksums under ~110 other "
+                "constants (Bech32m first) on short and long strings; a case is non-trivial if it is a distinct input")
     ctx.assumptions = ["credentials are 28-byte hashes (enforced by `assert` in the constructors of VerificationKeyHash / "
                        "ScriptHash, i.e. not under `python -O`)",
                        "Python int = Lean Nat for pointer components (non-negative)",
-                       "single-substitution rejection is proved for data-part characters within the charset; substitutions "
+                       "single-substitution rejection is proved (for strings of any length) for data-part characters within "
+                       "the charset; substitutions "
                        "by the separator / outside the charset / inside the prefix are covered by exhaustive evaluation "
                        "on sampled addresses only"]
     ctx.extra["trusted"] = ["harness/ref/bech32_ref.py (BIP-173 as GF(32) polynomial remainder; self-tested on the BIP "
@@ -592,10 +637,27 @@ def run(ctx):
                 dispatch(ctx, {"kind": "addr", "a": a})
                 if i == 0:
                     sample.append(a)
+    # long stream: pointer encodings of every length around the former limit (28 bytes = 108 characters on testnet,
+    # 30 bytes = three 64-bit components) and far beyond it
+    long_sample = []                           # one address of 111, 111 and ~250 characters for the rejection streams
+    want = {(30, "key", 0), (30, "script", 1), (100, "script", 0)}
+    for nbytes in list(range(3, 32)) + [40, 64, 100, 200, 300]:
+        for pk in ("key", "script"):
+            for net in (0, 1):
+                for r in range(ctx.budget(1, 20)):
+                    a = gen_addr(rng, pk, "none", net)
+                    a["stk"] = gen_long_ptr(rng, nbytes)
+                    dispatch(ctx, {"kind": "addr", "a": a})
+                    if r == 0 and (nbytes, pk, net) in want:
+                        long_sample.append(a)
     # pointer cube
     cube = [(x, y, z) for x in BOUNDS for y in BOUNDS for z in BOUNDS]
     for (x, y, z) in cube:
         dispatch(ctx, {"kind": "ptr", "slot": str(x), "tx": str(y), "cert": str(z)})
+    for x in WIDE:
+        for y in (0, 2 ** 63, WIDE[0], WIDE[-1]):
+            for (u, v, w) in ((x, y, 0), (0, x, y), (y, 0, x)):
+                dispatch(ctx, {"kind": "ptr", "slot": str(u), "tx": str(v), "cert": str(w)})
     for _ in range(ctx.budget(500, 50000)):
         vals = [rng.randrange(2 ** rng.randrange(0, 72)) for _ in range(3)]
         dispatch(ctx, {"kind": "ptr", "slot": str(vals[0]), "tx": str(vals[1]), "cert": str(vals[2])})
@@ -625,12 +687,15 @@ def run(ctx):
     # bech32 layer on arbitrary prefixes
     for _ in range(ctx.budget(600, 30000)):
         hrp = "".join(chr(rng.choice([rng.randrange(33, 65), rng.randrange(91, 127)])) for _ in range(rng.randrange(1, 12)))
-        dispatch(ctx, {"kind": "b32", "hrp": hrp, "hex": rng.randbytes(rng.choice([0, 1, 2, 3, 5, 20, 29, 32, 57, 60])).hex()})
+        n = rng.choice([0, 1, 2, 3, 5, 20, 29, 32, 57, 58, 59, 60, 61, 64, 108, 109, 200, rng.randrange(61, 400)])
+        dispatch(ctx, {"kind": "b32", "hrp": hrp, "hex": rng.randbytes(n).hex()})
     # other checksum constants and foreign prefixes
     consts = other_constants(rng)
-    for a in sample[:: ctx.budget(4, 1)]:
+    for a in sample[:: ctx.budget(4, 1)] + long_sample:
         for c in consts:
             dispatch(ctx, {"kind": "const", "a": a, "const": str(c)})
+    for a in sample:                                # the Bech32m constant on every kind and network
+        dispatch(ctx, {"kind": "const", "a": a, "const": str(B.BECH32M)})
     for a in sample:
         for hrp in ("addr", "addr_test", "stake", "stake_test", "script", "x"):
             if hrp != C.prefix(a):
@@ -640,11 +705,12 @@ def run(ctx):
     for _ in range(n_extra):
         pk, sk = rng.choice(kinds)
         sample.append(gen_addr(rng, pk, sk, rng.randrange(2)))
+    sample += long_sample           # strings beyond the former limit: 111, 111 and ~250 characters
     for a in sample:
         s = C.to_text(a)
-        if len(s) > 108 or impl_decode(s) != a:
+        if impl_decode(s) != a:
             continue                            # (reported by the valid stream)
-        ctx.count("subst-addresses")
+        ctx.count("subst-addresses" + (">108" if len(s) > OLD_LIMIT else ""))
         for pos in range(len(s)):
             for ch in SUBST_CHARS:
                 dispatch(ctx, {"kind": "subst", "s": s, "pos": pos, "ch": ch})
